@@ -11,6 +11,7 @@ import (
 	"net/http"
 	"net/http/httptest"
 	"net/url"
+	"os"
 	"sort"
 	"strings"
 	"testing"
@@ -66,6 +67,8 @@ type storeEnv struct {
 	sx   oplpb.SyntaxServiceServer
 	// pre-mapped request of the atomic family
 	preIns, preDel []*relationtuple.RelationTuple
+	// base context of the requests sent through this environment (nil = Background); the read probes give every probe a deadline
+	base context.Context
 }
 
 func newStoreEnv(t testing.TB, nss []*namespace.Namespace, seed int64, extra ...driver.TestRegistryOption) *storeEnv {
@@ -107,7 +110,11 @@ func namespaceHandler(reg *driver.RegistryDefault) rts.NamespacesServiceServer {
 }
 
 func (e *storeEnv) ctx(n string) context.Context {
-	return context.WithValue(context.Background(), nidKeyT{}, e.nids[n])
+	base := e.base
+	if base == nil {
+		base = context.Background()
+	}
+	return context.WithValue(base, nidKeyT{}, e.nids[n])
 }
 
 func (e *storeEnv) do(n string, h http.Handler, method, target string, body []byte) (int, []byte) {
@@ -640,6 +647,8 @@ func (e *storeEnv) mirrorHash() string {
 	return fmt.Sprintf("%d:%x", len(rows), h.Sum(nil)[:6])
 }
 
+var probeTimeouts, probeBads int
+
 // readProbes sends read and syntax requests (known and never-seen names, and
 // write methods on the read and syntax routers) and reports those after which
 // the byte-level dump of the database differs.
@@ -718,15 +727,96 @@ func (e *storeEnv) readProbes(n string, k int) (int, []string) {
 		}},
 	}
 	probes = append(probes, sizedBatches...)
+	// names that are hostile to a statement built by concatenation: quotes, comment markers and line breaks followed by SQL
+	for hi, hostile := range []string{
+		"x\n; DELETE FROM keto_relation_tuples; --",
+		"x\r\n; DELETE FROM keto_uuid_mappings --",
+		"x'; DELETE FROM keto_relation_tuples; --",
+		"x\"; DELETE FROM networks; --",
+		"x */ ; DELETE FROM keto_relation_tuples; /*",
+	} {
+		hostile := hostile
+		field := hi % 3 // which field carries it: relation, object, subject
+		mk := func() (string, string, string) {
+			o, r, sub := "hostile-o-"+fresh, "hostile-r", "hostile-s-"+fresh
+			switch field {
+			case 0:
+				r = hostile
+			case 1:
+				o = hostile
+			default:
+				sub = hostile
+			}
+			return o, r, sub
+		}
+		probes = append(probes,
+			probe{fmt.Sprintf("GET check, hostile name %d", hi), func() {
+				o, r, sub := mk()
+				e.do(n, e.rr, "GET", "/relation-tuples/check/openapi?"+url.Values{"namespace": {"n1"}, "object": {o}, "relation": {r}, "subject_id": {sub}}.Encode(), nil)
+			}},
+			probe{fmt.Sprintf("POST batch check, hostile name %d", hi), func() {
+				o, r, sub := mk()
+				b, _ := json.Marshal(map[string]any{"tuples": []any{map[string]any{"namespace": "n1", "object": o, "relation": r,
+					"subject_set": map[string]any{"namespace": "n2", "object": sub, "relation": r}}}})
+				e.do(n, e.rr, "POST", "/relation-tuples/batch/check", b)
+			}},
+			probe{fmt.Sprintf("gRPC check, hostile name %d", hi), func() {
+				o, r, sub := mk()
+				e.ch.Check(e.ctx(n), &rts.CheckRequest{Tuple: &rts.RelationTuple{Namespace: "n1", Object: o, Relation: r, Subject: rts.NewSubjectID(sub)}})
+			}},
+			probe{fmt.Sprintf("GET expand and list, hostile name %d", hi), func() {
+				o, r, sub := mk()
+				e.do(n, e.rr, "GET", "/relation-tuples/expand?"+url.Values{"namespace": {"n1"}, "object": {o}, "relation": {r}, "max-depth": {"3"}}.Encode(), nil)
+				e.do(n, e.rr, "GET", "/relation-tuples?"+url.Values{"namespace": {"n1"}, "object": {o}, "relation": {r}, "subject_id": {sub}}.Encode(), nil)
+			}})
+	}
 	var bad []string
 	before := e.dumpHash()
 	for _, p := range probes {
-		func() {
+		if os.Getenv("VERIF_DEBUG_PROBES") != "" {
+			fmt.Fprintln(os.Stderr, "probe:", p.name)
+		}
+		// every probe runs under a deadline: a request that does not come back is abandoned (its context ends) and reported
+		pctx, pcancel := context.WithTimeout(context.Background(), 5*time.Second)
+		e.base = pctx
+		sqlCtl.keepSQL = true
+		sqlCtl.begin(0, 0)
+		done := make(chan struct{})
+		go func() {
+			defer close(done)
 			defer func() { recover() }() // crashes are C13's business
 			p.f()
 		}()
+		if probeTimeouts >= 3 || probeBads >= 12 {
+			pcancel()
+			e.base = nil
+			break // the point is made; every further stuck request would cost seconds
+		}
+		select {
+		case <-done:
+		case <-time.After(8 * time.Second):
+			bad = append(bad, p.name+" (did not return within 8 s)")
+			probeTimeouts++
+		}
+		pcancel()
+		e.base = nil
+		// the statements the request sent to the database: none of them may change data (whether or not it got through)
+		for _, st := range sqlCtl.end() {
+			if st.Kind != "SELECT" && st.Kind != "BEGIN" && st.Kind != "COMMIT" && st.Kind != "ROLLBACK" && st.Kind != "OTHER" {
+				bad = append(bad, fmt.Sprintf("%s (sent a %s statement on %s to the database)", p.name, st.Kind, st.Table))
+				probeBads++
+				break
+			}
+			if w := sqlWrites(st.SQL); len(w) > 0 && st.Kind == "SELECT" {
+				bad = append(bad, fmt.Sprintf("%s (sent a statement to the database that carries %.80q)", p.name, w[0]))
+				probeBads++
+				break
+			}
+		}
+		sqlCtl.keepSQL = false
 		if h := e.dumpHash(); h != before {
 			bad = append(bad, p.name)
+			probeBads++
 			before = h
 		}
 	}
